@@ -62,6 +62,7 @@ def ctx():
 
 
 _FIELD_CACHE = {}
+_SUBRINGS = {}
 
 
 def _get_field(pool):
@@ -283,11 +284,12 @@ def _obviously_nonneg(p):
 class SReal:
     """Exact symbolic real: canonical rational function over Q in the ctx's gens."""
 
-    __slots__ = ("f",)
+    __slots__ = ("f", "nn")
     __array_ufunc__ = None  # let ndarray ops defer to our reflected methods -> object arrays
 
-    def __init__(self, f):
+    def __init__(self, f, nn=False):
         self.f = f
+        self.nn = nn  # known >= 0 by construction (squares, sums/products/quotients of such, sqrt atoms)
 
     # numpy: with __array_ufunc__ = None, `ndarray <op> SReal` returns NotImplemented
     # and Python calls SReal.__r<op>__(ndarray); we broadcast over object arrays there.
@@ -330,7 +332,7 @@ class SReal:
         b = SReal.lift(o)
         if b is None:
             return self._arr(o, lambda e: self + e)
-        return ctx().norm(self.f + b.f)
+        return ctx().norm(self.f + b.f, self.nn and b.nn)
 
     __radd__ = __add__
 
@@ -350,12 +352,12 @@ class SReal:
         b = SReal.lift(o)
         if b is None:
             return self._arr(o, lambda e: self * e)
-        return ctx().norm(self.f * b.f)
+        return ctx().norm(self.f * b.f, (b is self) or (self.nn and b.nn) or (self.f == b.f))
 
     __rmul__ = __mul__
 
     def __neg__(self):
-        return SReal(-self.f)
+        return SReal(-self.f, self.nn and not self.f)
 
     def __pos__(self):
         return self
@@ -365,14 +367,14 @@ class SReal:
         if b is None:
             return self._arr(o, lambda e: self / e)
         ctx().require_nonzero(b)
-        return ctx().norm(self.f / b.f)
+        return ctx().norm(self.f / b.f, self.nn and b.nn)
 
     def __rtruediv__(self, o):
         b = SReal.lift(o)
         if b is None:
             return self._arr(o, lambda e: e / self)
         ctx().require_nonzero(self)
-        return ctx().norm(b.f / self.f)
+        return ctx().norm(b.f / self.f, self.nn and b.nn)
 
     def __pow__(self, e):
         if isinstance(e, SReal):
@@ -383,9 +385,9 @@ class SReal:
         if e.denominator == 1:
             k = int(e)
             if k >= 0:
-                return ctx().norm(self.f**k)
+                return ctx().norm(self.f**k, self.nn or k % 2 == 0)
             ctx().require_nonzero(self)
-            return ctx().norm((ctx().F.one / self.f) ** (-k))
+            return ctx().norm((ctx().F.one / self.f) ** (-k), self.nn or k % 2 == 0)
         if e.denominator == 2:
             r = ssqrt(self)
             k = int(e.numerator)
@@ -420,6 +422,10 @@ class SReal:
         else:
             d = ctx().norm(a.f - b.f)
             rop = "==0" if op == "==" else "!=0"
+        if rop == ">=0" and ((op in ("<=",) and a.f == 0 and b.nn) or (op in (">=",) and b.f == 0 and a.nn)):
+            return True
+        if rop == ">0" and ((op == "<" and b.f == 0 and a.nn) or (op == ">" and a.f == 0 and b.nn)):
+            return False
         fm = ctx().rel_of(d, rop)
         if fm.kind == "const":
             return fm.a
@@ -613,7 +619,7 @@ class Ctx:
 
     def const(self, c):
         fr = to_fraction(c)
-        return SReal(self.F.ground_new(QQ(fr.numerator, fr.denominator)))
+        return SReal(self.F.ground_new(QQ(fr.numerator, fr.denominator)), fr >= 0)
 
     def sym(self, name):
         i = self._new_gen({"kind": "input", "name": name})
@@ -632,44 +638,34 @@ class Ctx:
         return info.get("name") or f"{info['kind']}{i}"
 
     # ---------------------------------------------------------------- normal forms
-    def norm(self, f):
-        """wrap a FracElement; reduce squares of sqrt atoms in numerator/denominator"""
+    def norm(self, f, nn=False):
+        """wrap a FracElement; reduce squares of sqrt atoms (r^2 -> radicand) in numerator/denominator"""
         if self.sqrt_gens:
             n, d = f.numer, f.denom
-            n2 = self._reduce_sqrt(n)
-            d2 = self._reduce_sqrt(d)
-            if n2 is not n or d2 is not d:
-                f = self.F.new(n2, d2) if d2.is_ground is False else self.F(n2) / self.F(d2)
-                # re-cancel
-                f = self.F(n2) / self.F(d2)
-        return SReal(f)
+            if self._needs_reduce(n) or self._needs_reduce(d):
+                f = self._reduce_sqrt(n) / self._reduce_sqrt(d)
+        return SReal(f, nn)
 
     def _reduce_sqrt(self, p):
-        changed = False
-        for g, rad in self.sqrt_gens.items():
-            # does p contain gen g with exponent >= 2 ?
-            need = False
-            for mon in p:
-                if mon[g] >= 2:
-                    need = True
-                    break
-            if not need:
-                continue
-            changed = True
-            out = self.R.zero
-            for mon, c in p.items():
-                e = mon[g]
+        """polynomial -> field element with every r^(2k) replaced by radicand^k"""
+        out = self.F.zero
+        for mon, c in p.items():
+            m = list(mon)
+            extra = None
+            for g, rad in self.sqrt_gens.items():
+                e = m[g]
                 if e >= 2:
-                    m = list(mon)
                     m[g] = e & 1
-                    term = self.R.term_new(tuple(m), c) * rad ** (e >> 1)
-                    out = out + term
-                else:
-                    out = out + self.R.term_new(mon, c)
-            p = out
-        if changed:
-            return self._reduce_sqrt(p) if self._needs_reduce(p) else p
-        return p
+                    t = rad ** (e >> 1)
+                    extra = t if extra is None else extra * t
+            term = self.F(self.R.term_new(tuple(m), c))
+            if extra is not None:
+                term = term * extra
+            out = out + term
+        n, d = out.numer, out.denom
+        if self._needs_reduce(n) or self._needs_reduce(d):
+            return self._reduce_sqrt(n) / self._reduce_sqrt(d)
+        return out
 
     def _needs_reduce(self, p):
         for g in self.sqrt_gens:
@@ -1011,6 +1007,7 @@ class Ctx:
         for name in ("atom_cache", "sqrt_gens", "inputs", "elim", "_z3vars", "_monovars"):
             setattr(c, name, dict(getattr(self, name)))
         c._uf = {k: list(v) for k, v in self._uf.items()}
+        c._ufc_cache = None
         c._subs_cache = {}
         c._s1 = None
         c._s3 = None
@@ -1080,53 +1077,35 @@ class Ctx:
             a, b = _isqrt_exact(v.numerator), _isqrt_exact(v.denominator)
             if a is not None and b is not None:
                 return self.const(Fraction(a, b))
-            # sqrt of a rational constant: algebraic constant atom over squarefree part
+            # sqrt of a rational constant: algebraic constant atom over the squarefree part
             num = v.numerator * v.denominator  # sqrt(n/d) = sqrt(n*d)/d
             sq, sf = _square_part(num)
-            g = self._sqrt_atom(self.R.ground_new(QQ(sf)))
-            return self.norm(g.f * self.F.ground_new(QQ(sq, v.denominator)))
-        # rational function p/q -> sqrt(p*q)/|q|
-        if q.is_ground:
-            qc = q.LC
-            P = n * (1 / qc) if False else n.quo_ground(qc)
-            denom_abs = None
-        else:
-            s = self.sign_known(q)
-            if s == 0:
-                s = 1 if self.branch(Formula.rel(q, ">0")) else -1
-                if s < 0:
-                    # q<0 (q != 0 as a denominator)
-                    pass
-            P = n * q
-            denom_abs = q if s > 0 else -q
-        # radicand must be >= 0
-        if not _obviously_nonneg(P):
-            ok = Formula.rel(P, ">=0")
+            g = self._sqrt_atom(self.F.ground_new(QQ(sf)))
+            return self.norm(g.f * self.F.ground_new(QQ(sq, v.denominator)), True)
+        # radicand must be >= 0 (skipped when known by construction)
+        if not x.nn:
+            ok = self.rel_of(x, ">=0")
             if not self.branch(ok):
                 self.event("sqrt-neg", _where())
-        # pull out square factors: P = c * prod f_i^{e_i}
-        root = self._sqrt_poly(P)
-        if denom_abs is not None:
-            return self.norm(root.f / self.F(denom_abs))
-        return root
+        if q.is_ground:
+            return self._sqrt_poly(n.quo_ground(q.LC))
+        return self._sqrt_atom(x.f)
 
     def _sqrt_poly(self, P):
-        """sqrt of a polynomial known >= 0."""
+        """sqrt of a polynomial known >= 0: pull out square factors."""
         if P.is_ground:
-            return self.sqrt(SReal(self.F(P)))
-        c, factors = P.sqf_list()
+            return self.sqrt(SReal(self.F(P), True))
+        c, factors = self._sqf_list(P)
         c = Fraction(int(c.numerator), int(c.denominator))
         outside = self.const(1)
         inside = self.R.one
         for fac, e in factors:
             if e >= 2:
                 a = SReal(self.F(fac ** (e // 2)))
-                if e // 2 % 2 == 1 or True:
-                    a = sabs(a) if (e // 2) % 2 == 1 else a
+                a = sabs(a) if (e // 2) % 2 == 1 else a
                 outside = outside * a
             if e % 2 == 1:
                 inside = inside * fac
-        # sign/content: inside * c must be >= 0 ; make `inside` primitive with the constant in c
         if inside.is_ground:
             v = c * Fraction(int(inside.LC.numerator), int(inside.LC.denominator))
             return outside * self.sqrt(self.const(v))
@@ -1136,22 +1115,51 @@ class Ctx:
         if c < 0:
             inside = -inside
             c = -c
-        g = self._sqrt_atom(inside)
-        return outside * g * self.sqrt(self.const(c))
+        g = self._sqrt_atom(self.F(inside))
+        res = outside * g * self.sqrt(self.const(c))
+        res.nn = True
+        return res
+
+    def _sqf_list(self, P):
+        """square-free factorisation in the sub-ring of the gens that occur (sympy's sqf_list goes
+        through a dense representation, hopeless in the pooled ring); skipped for large radicands"""
+        used = sorted({i for m in P for i, e in enumerate(m) if e})
+        if len(P) > 40 or len(used) > 8 or max(sum(m) for m in P) > 6:
+            return QQ(1), [(P, 1)]
+        from sympy.polys.rings import PolyRing
+
+        key = tuple(used)
+        R2 = _SUBRINGS.get(key)
+        if R2 is None:
+            R2 = PolyRing([f"v{i}" for i in used], QQ, lex)
+            _SUBRINGS[key] = R2
+        q = R2.from_dict({tuple(m[i] for i in used): c for m, c in P.items()})
+        c, factors = q.sqf_list()
+        out = []
+        n = len(self.R.gens)
+        for fac, e in factors:
+            d = {}
+            for m, cc in fac.items():
+                full = [0] * n
+                for j, i in enumerate(used):
+                    full[i] = m[j]
+                d[tuple(full)] = cc
+            out.append((self.R.from_dict(d), e))
+        return c, out
 
     def _sqrt_atom(self, rad):
-        key = ("sqrt", tuple(sorted(rad.items())))
+        """rad: field element (known >= 0). atom r >= 0 with r^2 * den == num"""
+        key = ("sqrt", rad)
         if key in self.atom_cache:
             return self.atom_cache[key]
         i = self._new_gen({"kind": "sqrt", "rad": rad})
         g = self.gens[i].numer
         self.sqrt_gens[i] = rad
-        r = SReal(self.gens[i])
+        r = SReal(self.gens[i], True)
         self.atom_cache[key] = r
-        # defining constraints: r >= 0, r*r == rad
         self._add_pc(Formula.rel(g, ">=0"))
-        self._add_pc(Formula("rel", g * g - rad, "==0"))
-        if self.sign_known(rad) > 0 or (rad.is_ground and rad.LC > 0):
+        self._add_pc(Formula("rel", g * g * rad.denom - rad.numer, "==0"))
+        if rad.denom.is_ground and (self.sign_known(rad.numer) > 0 and rad.numer.coeff(1) > 0):
             self._add_pc(Formula.rel(g, ">0"))
         return r
 
@@ -1172,7 +1180,7 @@ class Ctx:
         if key in self.atom_cache:
             return self.atom_cache[key]
         i = self._new_gen({"kind": "ite", "c": c, "a": a, "b": b})
-        t = SReal(self.gens[i])
+        t = SReal(self.gens[i], a.nn and b.nn)
         self.atom_cache[key] = t
         g = self.gens[i].numer
         da = g * a.f.denom - a.f.numer
@@ -1353,6 +1361,9 @@ class Ctx:
     def _uf_constraints_z3(self):
         """congruence is handled by atom caching on identical argument terms; for
         semantically-equal-but-syntactically-different args add pairwise implications"""
+        key = (sum(len(l) for l in self._uf.values()), len(self.elim))
+        if getattr(self, "_ufc_cache", None) is not None and self._ufc_cache[0] == key:
+            return self._ufc_cache[1]
         out = []
         for fname, lst in self._uf.items():
             for (i, ai), (j, aj) in itertools.combinations(lst, 2):
@@ -1363,6 +1374,7 @@ class Ctx:
                     d = self.norm(x.f - y.f)
                     eqs.append(self._z3(Formula.rel(d.f.numer, "==0")))
                 out.append(z3.Implies(z3.And(eqs), self._zv(i) == self._zv(j)))
+        self._ufc_cache = (key, out)
         return out
 
     def _solver1(self):
@@ -1382,7 +1394,7 @@ class Ctx:
         while self._s3n < len(self.pc):
             self._s3.append(self._z3(self.pc[self._s3n]))
             self._s3n += 1
-        s = z3.Solver() if (self.int_gens or self._uf) else z3.SolverFor("QF_NRA")
+        s = z3.Solver() if self.int_gens else z3.SolverFor("QF_NRA")
         for e in self._s3:
             s.add(e)
         for f in self.elim_eqs:
